@@ -79,6 +79,9 @@ type Faults struct {
 	// WriteErrOnce: only the write with index WriteErrAt fails (a transient fault); the peer never
 	// sees its bytes, later writes work again
 	WriteErrOnce bool `json:"write_err_once,omitempty"`
+	// WriteStallAt (1-based; 0 = none): the write with index WriteStallAt-1 and all later ones
+	// block -- the peer has stopped taking bytes -- until the transport is closed
+	WriteStallAt int `json:"write_stall_at,omitempty"`
 }
 
 // NoFaults is the fault-free plan.
@@ -146,6 +149,7 @@ type T struct {
 	closed    bool
 	killed    bool
 	waiter    chan struct{}
+	wwait     []chan struct{} // writers blocked by a write stall
 	quietAt   int
 
 	Opened     int
@@ -228,6 +232,10 @@ func (t *T) wakeLocked() {
 		close(t.waiter)
 		t.waiter = nil
 	}
+	for _, w := range t.wwait {
+		close(w)
+	}
+	t.wwait = nil
 }
 
 // Open implements transport.Implementation.
@@ -583,6 +591,20 @@ func (t *T) Write(b []byte) error {
 	if t.closed {
 		rec.Failed = true
 		t.Writes = append(t.Writes, rec)
+
+		return ErrSimClosed
+	}
+	if t.F.WriteStallAt > 0 && len(t.Writes) >= t.F.WriteStallAt-1 {
+		rec.Failed = true
+		t.Writes = append(t.Writes, rec)
+		t.FaultFired["write-stall"]++
+		for !t.closed && !t.killed {
+			w := make(chan struct{})
+			t.wwait = append(t.wwait, w)
+			t.mu.Unlock()
+			<-w
+			t.mu.Lock()
+		}
 
 		return ErrSimClosed
 	}
